@@ -183,8 +183,10 @@ pub struct WorldSys {
 	pub lazy_manager: bool,
 	pub mines_done: u32,
 	pub jumped: bool,
+	pub needs_bury: bool,
 	pub tampered: bool,
 	pub last_raa: std::collections::BTreeMap<(usize, usize), lightning::ln::msgs::RevokeAndACK>,
+	pub crash_nodes: Vec<usize>,
 	/// mine to resolution in the settling phase when a channel was closed on chain
 	pub settle_on_chain: bool,
 	/// (payment index, kind, limit read, minimum read)
@@ -213,9 +215,11 @@ impl WorldSys {
 			lazy_manager: false,
 			mines_done: 0,
 			jumped: false,
+			needs_bury: false,
 			tampered: false,
 			last_raa: Default::default(),
 			settle_on_chain: false,
+			crash_nodes: Vec::new(),
 			probes: Vec::new(),
 		}
 	}
@@ -261,11 +265,16 @@ impl WorldSys {
 			v.push(Action::Op(self.next_op));
 		}
 		if v.is_empty() && self.finished && self.settle_on_chain {
-			// on-chain settling: confirm whatever is in the mempool, then let every timelock expire
-			if !self.w.chain.mempool.is_empty() && self.mines_done < 16 {
+			// on-chain settling: confirm whatever is in the mempool, bury it by the anti-reorg depth, let
+			// every timelock expire once, and repeat until nothing is left to confirm
+			if !self.w.chain.mempool.is_empty() && self.mines_done < 24 {
 				v.push(Action::Mine);
+			} else if self.needs_bury {
+				v.push(Action::MineEmpty(7));
 			} else if !self.jumped {
-				v.push(Action::MineEmpty(160));
+				// past every HTLC expiry: 100 blocks of CLTV delta per hop in the harness routes
+				let hops = self.ops.iter().map(|o| if let Op::Send { hops, .. } = o { hops.len() } else { 1 }).max().unwrap_or(1) as u32;
+				v.push(Action::MineEmpty(100 * hops + 60));
 			}
 		}
 		v
@@ -358,6 +367,149 @@ impl WorldSys {
 		}
 	}
 
+	fn do_crash(&mut self, n: usize, choice: u32, lost: Option<(usize, crate::world::Wire)>) -> Result<(), Failure> {
+		self.crashes_done += 1;
+		let cands = self.w.nodes[n].persist.crash_candidates();
+		let mut chosen = std::collections::BTreeMap::new();
+		let mut c = choice;
+		let mut stale = false;
+		for (cid, v) in cands.iter() {
+			let idx = (c % v.len() as u32) as usize;
+			c /= v.len() as u32;
+			if idx + 1 != v.len() {
+				stale = true;
+			}
+			chosen.insert(*cid, v[idx].clone());
+		}
+		if stale {
+			crate::runner::witness("crash-with-older-monitor-candidate");
+		}
+		crate::runner::witness("crash-restart");
+		let mgr = self.w.nodes[n].durable_manager.clone();
+		self.async_on[n] = false;
+		self.w.restart_node(n, &chosen, mgr, lost).map_err(|e| Failure::new("restart-deserialization", e))
+	}
+
+	fn step_inner(&mut self, a: &Action) -> Result<(), Failure> {
+		match a {
+			Action::Events(n) => self.w.handle_events(*n),
+			Action::Forward(n) => self.w.forward(*n),
+			Action::Deliver(f, t) => {
+				if let Some(crate::world::Wire::Raa(m)) = self.w.links.get(&(*f, *t)).and_then(|q| q.front()) {
+					self.last_raa.insert((*f, *t), m.clone());
+				}
+				self.w.deliver(*f, *t)
+			},
+			Action::TamperRaa(f, t, variant) => {
+				self.tampered = true;
+				if let Some(crate::world::Wire::Raa(m)) = self.w.links.get_mut(&(*f, *t)).and_then(|q| q.pop_front()) {
+					let mut bad = m.clone();
+					match variant {
+						0 => bad.per_commitment_secret[7] ^= 0x10,
+						_ => {
+							if let Some(prev) = self.last_raa.get(&(*f, *t)) {
+								bad.per_commitment_secret = prev.per_commitment_secret;
+							}
+						},
+					}
+					self.w.obs.push(Obs::Api { node: *t, what: "tamper-raa".into(), ok: true, detail: format!("variant {}", variant) });
+					self.w.deliver_wire(*f, *t, crate::world::Wire::Raa(bad));
+				}
+			},
+			Action::Op(i) => {
+				self.do_op(*i);
+				self.next_op = *i + 1;
+			},
+			Action::Disconnect(a, b) => {
+				self.disconnects_done += 1;
+				self.w.disconnect(*a, *b);
+			},
+			Action::Reconnect(a, b) => self.w.connect(*a, *b),
+			Action::Tick(n) => {
+				self.ticks_done += 1;
+				self.w.nodes[*n].cm.timer_tick_occurred();
+				self.w.pump();
+			},
+			Action::AsyncOn(n) => {
+				self.async_on[*n] = true;
+				self.w.nodes[*n].persist.set_async_all(true);
+			},
+			Action::Complete(n, _ci, id) => {
+				let outs = self.w.nodes[*n].persist.outstanding();
+				if let Some((cid, _)) = outs.iter().find(|(_, i)| i == id) {
+					let cid = *cid;
+					self.w.nodes[*n].persist.mark_completed(cid, *id);
+					let r = self.w.nodes[*n].mon.channel_monitor_updated(cid, *id);
+					self.w.obs.push(Obs::Completed { node: *n, chan: cid, id: *id });
+					if r.is_err() {
+						return Err(Failure::new("harness", format!("channel_monitor_updated failed: {:?}", r)));
+					}
+					self.w.pump();
+				}
+			},
+			Action::WriteManager(n) => {
+				self.w.nodes[*n].write_manager();
+				self.w.manager_dirty[*n] = false;
+			},
+			Action::Finish => {
+				self.finished = true;
+			},
+			Action::Mine => {
+				self.mines_done += 1;
+				self.needs_bury = true;
+				if std::env::var("MC_TRACE").is_ok() {
+					for t in self.w.chain.mempool.iter() {
+						eprintln!("    mempool tx {} inputs {:?} outs {:?}", t.compute_txid(), t.input.iter().map(|i| format!("{}:{}", &i.previous_output.txid.to_string()[..8], i.previous_output.vout)).collect::<Vec<_>>(), t.output.iter().map(|o| o.value.to_sat()).collect::<Vec<_>>());
+					}
+				}
+				self.w.chain.mine_mempool();
+				self.w.sync_all();
+			},
+			Action::MineEmpty(k) => {
+				if *k > 100 {
+					self.jumped = true;
+					self.mines_done = 0;
+				}
+				self.needs_bury = false;
+				self.w.mine_empty(*k);
+				self.w.sync_all();
+			},
+			Action::Crash(n, choice) => {
+				self.do_crash(*n, *choice, None)?;
+			},
+			Action::CrashInside(n, k, after) => {
+				// run the default next action with a crash armed at the k-th Persist call of node n
+				let default = match self.default_actions().into_iter().next() {
+					Some(d) => d,
+					None => return Ok(()),
+				};
+				let lost = match &default {
+					Action::Deliver(f, t) => self.w.links.get(&(*f, *t)).and_then(|q| q.front().cloned()).map(|w| (*f, w)),
+					_ => None,
+				};
+				self.w.nodes[*n].persist.inner.lock().unwrap().crash_inside = Some((*k, *after));
+				let res = std::panic::catch_unwind(std::panic::AssertUnwindSafe(|| self.step_inner(&default)));
+				match res {
+					Ok(r) => {
+						// the handler made fewer Persist calls: nothing happened
+						self.w.nodes[*n].persist.inner.lock().map(|mut g| g.crash_inside = None).ok();
+						crate::runner::witness("crash-inside-not-reached");
+						r?;
+					},
+					Err(payload) => {
+						if payload.is::<crate::persist::CrashNow>() {
+							crate::runner::witness(if *after { "crash-inside-after-write" } else { "crash-inside-before-write" });
+							self.do_crash(*n, 0, lost)?;
+						} else {
+							std::panic::resume_unwind(payload);
+						}
+					},
+				}
+			},
+		}
+		Ok(())
+	}
+
 	fn run_oracles(&mut self) -> Result<(), Failure> {
 		let obs = self.w.new_obs();
 		if std::env::var("MC_TRACE").is_ok() {
@@ -427,6 +579,33 @@ impl System for WorldSys {
 				}
 			}
 		}
+		if self.crashes_done < self.max_crashes {
+			if let Some(c) = self.dev.crash {
+				for &i in self.crash_nodes.iter() {
+					let cands = self.w.nodes[i].persist.crash_candidates();
+					let product: u32 = cands.values().map(|v| v.len() as u32).product::<u32>().max(1);
+					for choice in 0..product.min(8) {
+						out.push((Action::Crash(i, choice), c));
+					}
+				}
+			}
+			if let Some(c) = self.dev.crash_inside {
+				let target = match out.first().map(|x| &x.0) {
+					Some(Action::Deliver(_, t)) => Some(*t),
+					Some(Action::Events(t)) | Some(Action::Forward(t)) | Some(Action::Complete(t, _, _)) => Some(*t),
+					_ => None,
+				};
+				if let Some(t) = target {
+					if self.crash_nodes.contains(&t) {
+						for k in 0..3u32 {
+							for after in [false, true] {
+								out.push((Action::CrashInside(t, k, after), c));
+							}
+						}
+					}
+				}
+			}
+		}
 		if let Some(c) = self.dev.async_persist {
 			for i in 0..n {
 				if !self.async_on[i] {
@@ -442,84 +621,7 @@ impl System for WorldSys {
 		if std::env::var("MC_TRACE").is_ok() {
 			eprintln!("STEP {}", encode_action(a));
 		}
-		match a {
-			Action::Events(n) => self.w.handle_events(*n),
-			Action::Forward(n) => self.w.forward(*n),
-			Action::Deliver(f, t) => {
-				if let Some(crate::world::Wire::Raa(m)) = self.w.links.get(&(*f, *t)).and_then(|q| q.front()) {
-					self.last_raa.insert((*f, *t), m.clone());
-				}
-				self.w.deliver(*f, *t)
-			},
-			Action::TamperRaa(f, t, variant) => {
-				self.tampered = true;
-				if let Some(crate::world::Wire::Raa(m)) = self.w.links.get_mut(&(*f, *t)).and_then(|q| q.pop_front()) {
-					let mut bad = m.clone();
-					match variant {
-						0 => bad.per_commitment_secret[7] ^= 0x10,
-						_ => {
-							if let Some(prev) = self.last_raa.get(&(*f, *t)) {
-								bad.per_commitment_secret = prev.per_commitment_secret;
-							}
-						},
-					}
-					self.w.obs.push(Obs::Api { node: *t, what: "tamper-raa".into(), ok: true, detail: format!("variant {}", variant) });
-					self.w.deliver_wire(*f, *t, crate::world::Wire::Raa(bad));
-				}
-			},
-			Action::Op(i) => {
-				self.do_op(*i);
-				self.next_op = *i + 1;
-			},
-			Action::Disconnect(a, b) => {
-				self.disconnects_done += 1;
-				self.w.disconnect(*a, *b);
-			},
-			Action::Reconnect(a, b) => self.w.connect(*a, *b),
-			Action::Tick(n) => {
-				self.ticks_done += 1;
-				self.w.nodes[*n].cm.timer_tick_occurred();
-				self.w.pump();
-			},
-			Action::AsyncOn(n) => {
-				self.async_on[*n] = true;
-				self.w.nodes[*n].persist.set_async_all(true);
-			},
-			Action::Complete(n, _ci, id) => {
-				let outs = self.w.nodes[*n].persist.outstanding();
-				if let Some((cid, _)) = outs.iter().find(|(_, i)| i == id) {
-					let cid = *cid;
-					self.w.nodes[*n].persist.mark_completed(cid, *id);
-					let r = self.w.nodes[*n].mon.channel_monitor_updated(cid, *id);
-					self.w.obs.push(Obs::Completed { node: *n, chan: cid, id: *id });
-					if r.is_err() {
-						return Err(Failure::new("harness", format!("channel_monitor_updated failed: {:?}", r)));
-					}
-					self.w.pump();
-				}
-			},
-			Action::WriteManager(n) => {
-				self.w.nodes[*n].write_manager();
-				self.w.manager_dirty[*n] = false;
-			},
-			Action::Finish => {
-				self.finished = true;
-			},
-			Action::Mine => {
-				self.mines_done += 1;
-				self.w.chain.mine_mempool();
-				self.w.sync_all();
-			},
-			Action::MineEmpty(k) => {
-				self.jumped = true;
-				self.mines_done = 0;
-				self.w.mine_empty(*k);
-				self.w.sync_all();
-			},
-			Action::Crash(..) | Action::CrashInside(..) => {
-				return Err(Failure::new("harness", "crash actions are handled by the crash scenarios"));
-			},
-		}
+		self.step_inner(a)?;
 		self.run_oracles()
 	}
 
